@@ -253,6 +253,10 @@ def r02_1(ctx):
             npat = compiled_pattern(repo, CORE, n.value)
         if isinstance(n, ast.Assign) and isinstance(n.targets[0], ast.Subscript) and isinstance(n.value, ast.JoinedStr):
             repl = n.value
+        # the replacement text wherever it is built (element of a comprehension, a nested helper's return value)
+        if repl is None and isinstance(n, ast.JoinedStr) and n.values and isinstance(n.values[-1], ast.Constant) and str(n.values[-1].value).endswith("=n") \
+                and "group(1)" in ast.unparse(n):
+            repl = n
     construct = "Kconfig.write_min_config/=n normalisation maps the unset shape onto the set shape"
     if npat is None or repl is None:
         ctx.bad(construct, "normaliser regex / replacement not found", w.loc())
